@@ -78,12 +78,26 @@ type Node struct {
 	Engine *bft.Engine
 }
 
-func (s *Sim) NewNode(master int) *Node {
-	db := muxdb.NewMem()
-	builder, err := genesis.NewCustomNet(s.gene)
+// genesis.NewCustomNet builds the genesis once into a throw-away in-memory database (to compute its id) that it never
+// closes; the builder only depends on (N, MBP), so it is cached for the whole process.
+var builders = map[[2]uint64]*genesis.Genesis{}
+
+func (s *Sim) builder() *genesis.Genesis {
+	key := [2]uint64{uint64(s.Cfg.N), s.Cfg.MBP}
+	if b, ok := builders[key]; ok {
+		return b
+	}
+	b, err := genesis.NewCustomNet(s.gene)
 	if err != nil {
 		hx.Fatal("genesis: %v", err)
 	}
+	builders[key] = b
+	return b
+}
+
+func (s *Sim) NewNode(master int) *Node {
+	db := muxdb.NewMem()
+	builder := s.builder()
 	stater := state.NewStater(db)
 	gen, _, _, err := builder.Build(stater)
 	if err != nil {
